@@ -516,7 +516,9 @@ pub fn attr_corpus(thorough: bool) -> Vec<Program> {
     }
     // receivers with declared attribute names but no ordinary member (magic members only)
     for t in [Trait::FromDeriveInput, Trait::FromField, Trait::FromVariant, Trait::FromTypeParam, Trait::FromAttributes] {
-        for fwd in [Fwd::All, Fwd::Only(vec!["doc".into(), "a".into()])] {
+        // forward lists that overlap the receiver's own attribute names partly, wholly (every
+        // forwarded name is also claimed: nothing is ever forwarded) and in reverse order
+        for fwd in [Fwd::All, Fwd::Only(vec!["doc".into(), "a".into()]), Fwd::Only(vec!["a".into()]), Fwd::Only(vec!["b".into(), "a".into()])] {
             let mut s = StructDecl::new(t, vec![]);
             s.attrs = vec!["a".into(), "b".into()];
             s.fwd = fwd.clone();
